@@ -91,6 +91,14 @@ let parse_out (s : string) : out option =
 
 (* iterator patterns: F/B = next()/next_back() with the result reported; f/b = the same step whose result the adaptor
    (nth / nth_back, hence skip and step_by) discards at once: not reported, and for an owning iterator dropped on the spot *)
+(* type instantiations without a Drop impl on the key (or the value): their objects are never reported as dropped. Key
+   objects carry odd tokens, value objects even ones (harness/src/lib.rs), so the model's expectation can be restricted to
+   the objects whose drops are observable *)
+let kdrop = ref true
+let vdrop = ref true
+let observable_drops (l : n list) : n list =
+  if !kdrop && !vdrop then l else
+  List.filter (fun t -> let odd = Z.testbit (z_of_n t) 0 in if odd then !kdrop else !vdrop) l
 let last_mask : bool list ref = ref []
 let pat_of s = if s = "-" then (last_mask := []; []) else begin
     (* l..lL (executed as last()) and c..c (executed as count()) are front steps: l, c discarded, L reported *)
@@ -279,7 +287,11 @@ let () =
         if slot = 0 then begin incr trace; step := 0; Hashtbl.reset dropped_ever; Hashtbl.reset returned_ever;
           Array.fill slots 0 8 None end;
         e := n es; vsz := n vss; cfg_pending := Some slot; cfg_cap := Z.of_string _cap;
-        bump dist ("hasher=" ^ _hk)
+        (* 8th field (optional): which instantiation of the key / value types ran: d = has a Drop impl, p = plain, f = default hasher *)
+        let ty = (match split ' ' line with _ :: _ :: _ :: _ :: _ :: _ :: _ :: _ :: t :: _ -> t | _ -> "dd") in
+        kdrop := (ty <> "pd"); vdrop := (ty <> "dp");
+        bump dist ("types=" ^ ty);
+        bump dist ("hasher=" ^ (if ty = "df" then "default" else _hk))
       | _ -> failwith "bad CFG"
     end
     else if tag = "OP " then begin
@@ -498,9 +510,9 @@ let () =
                                   && Z.equal (z_of_n pre.st.maxs) (z_of_n post.st.maxs) && Z.equal (z_of_n pre.cap) (z_of_n post.cap) && post.dropped = [])
                   | _ -> ());
                  chk "cap" (Z.equal (z_of_n (capacity s'.tb)) (z_of_n post.cap) && Z.equal (z_of_n s'.tb.nb) (z_of_n post.st.tb.nb));
-                 chk "drops" (sorted_n evs.e_dropped = sorted_n post.dropped);
+                 chk "drops" (sorted_n (observable_drops evs.e_dropped) = sorted_n post.dropped);
                  (* eviction order: the key tokens of the evicted entries, in the order their drops were logged *)
-                 let evk = List.map (fun (en : entry) -> z_of_n en.ek.ktok) evs.e_evicted in
+                 let evk = List.map (fun (en : entry) -> z_of_n (if !kdrop then en.ek.ktok else en.ev.vtok)) (if !kdrop || !vdrop then evs.e_evicted else []) in
                  let obs_evk = List.filter (fun t -> List.exists (Z.equal t) evk) (List.map z_of_n post.dropped) in
                  chk "evict_order" (evk = obs_evk);
                  chk "hashes_le" (Z.leq (z_of_n post.hashes) (z_of_n evs.e_hashes));
@@ -559,7 +571,10 @@ let () =
               chkw "mon_c02_sum" (Z.equal (z_of_n post.st.cur) (List.fold_left (fun a (en : entry) -> Z.add a (z_of_n en.es)) Z.zero post.st.ents));
               chkw "mon_c04" (c04_nodup_mon post.st);
               (match parse_out post.res with
-               | Some o -> if post.res <> "panic" then chkw "mon_c06" (c06_mon pre.st p o post.dropped post.st);
+               | Some o ->
+                 (* objects of a type without Drop impl leave without a trace: for them the ledger takes the model's word *)
+                 let unobs = (match chosen with Some (_, evs) -> List.filter (fun t -> not (List.memq t (observable_drops [t]))) evs.e_dropped | None -> []) in
+                 if post.res <> "panic" then chkw "mon_c06" (c06_mon pre.st p o (post.dropped @ unobs) post.st);
                  List.iter (fun t -> Hashtbl.replace returned_ever (s_of_n t) ()) (returned p o)
                | None -> ());
               chkw "mon_c20" (c20_mon pre.st p post.hashes moved post.st);
@@ -618,13 +633,13 @@ let () =
               (match gstate_of pre with
                | Some g0 -> chk "brefine" ((bB_drop { bg = g0; bcur = pre.st.cur; bmax = pre.st.maxs; btb = pre.st.tb }).e_dropped = evs.e_dropped)
                | None -> ());
-              chk "drops" (sorted_n evs.e_dropped = sorted_n post.dropped);
+              chk "drops" (sorted_n (observable_drops evs.e_dropped) = sorted_n post.dropped);
               chk "hashes_le" (Z.equal (z_of_n post.hashes) Z.zero)
             | XIntoIter (kind, pt, f) ->
               let step_mask = !last_mask in
               let (o, evs) = (let (o0, e0) = do_into_iter pre.st (n_of_int kind) pt f in mask_items step_mask (Some kind) o0 e0) in
               chk "res" (res_string ~kind o = post.res);
-              chk "drops" (sorted_n evs.e_dropped = sorted_n post.dropped);
+              chk "drops" (sorted_n (observable_drops evs.e_dropped) = sorted_n post.dropped);
               chk "hashes_le" (Z.equal (z_of_n post.hashes) Z.zero);
               (* B level: the extracted owning iterator (B/CloneB.v, proved to refine do_into_iter) run on the observed pointer graph *)
               (match gstate_of pre with
